@@ -1,5 +1,5 @@
 """C05 - every hit is accounted for exactly once at every stage (structural part)."""
-from sa.rules import accounting, typestate, indexing, separation, scaling
+from sa.rules import accounting, typestate, indexing, separation, scaling, cropping, screening
 
 LEVEL = 'other'
 
@@ -19,5 +19,9 @@ def check(ctx):
     scaling.positive_span(ctx, 'C05-R10')
     # R11: a refused stage call leaves the per-hit ids and the tables as they were (otherwise they disagree afterwards)
     typestate.refusal_before_mutation(ctx, 'C05-R11')
+    # R12: 'hits cropped above MSA + buffer excepted': what is cropped is decided by the chunk's own MSA and buffer (= C07-R1/R2)
+    cropping.crop_effects(ctx, 'C05-R12')
+    # R13: no hit is altered by the screening either (= C15-R2: casts and column drops only)
+    screening.normalisation(ctx, 'C05-R13', 'C05-R13')
     ctx.undecided += ['that scikit-learn returns one label per row; that every mixture component is populated '
                       '(run-time assert in layer.ncomp_from_gmm); that k sub-components give k layers numerically']
